@@ -955,19 +955,23 @@ class DestHandler:
                         segment_requests=[lost_segment],
                     )
                 )
-        if offset >= self._params.acked_params.last_end_offset:
+        if (
+            offset >= self._params.acked_params.last_end_offset
+            or offset + data_len > self._params.acked_params.last_end_offset
+        ):
+            # Also covers a segment which starts inside the data received so far and reaches
+            # beyond it (differently segmented data).
             self._params.acked_params.last_start_offset = offset
             self._params.acked_params.last_end_offset = offset + data_len
-        if offset + data_len <= self._params.acked_params.last_start_offset:
-            # Might be a re-requested FD PDU. It can overlap the boundaries of tracked lost
-            # segments (duplicated, re-ordered or differently segmented data), so only the parts
-            # which are actually tracked are removed.
-            tracker = self._params.acked_params.lost_seg_tracker
-            for seg_start, seg_end in list(tracker.lost_segments.items()):
-                start = max(seg_start, offset)
-                end = min(seg_end, offset + data_len)
-                if start < end:
-                    tracker.remove_lost_segment((start, end))
+        # Might be a re-requested FD PDU. It can overlap the boundaries of tracked lost segments
+        # or reach beyond the last received segment (duplicated, re-ordered or differently
+        # segmented data), so the parts of it which are actually tracked are removed.
+        tracker = self._params.acked_params.lost_seg_tracker
+        for seg_start, seg_end in list(tracker.lost_segments.items()):
+            start = max(seg_start, offset)
+            end = min(seg_end, offset + data_len)
+            if start < end:
+                tracker.remove_lost_segment((start, end))
 
     def _deferred_lost_segment_handling(self) -> None:
         if not self._params.acked_params.deferred_lost_segment_detection_active:
